@@ -315,3 +315,36 @@ def reaches_unless(ctx, body, starts, targets, stops, exempt_edge):
         memo[bb] = res
         return res
     return all(ok(s_) for s_ in starts)
+
+
+def some_iff_nonempty(ctx, rr, body, label):
+    """a helper that reports `Option<Vec<_>>` reports Some(list) for a NON-empty list: its callers act (delete, refund, drop) only on
+    Some, so the inverted test makes them act on nothing and skip everything.  Judged for the two spellings in use
+    (`(!v.is_empty()).then_some(v)` and `if v.is_empty() { None } else { Some(v) }`); other spellings are not judged."""
+    ret = ctx.og.local(body, 0)
+    alts = ret[1] if isinstance(ret, tuple) and ret and ret[0] == "phi" else (ret,)
+    judged = 0
+    for a in alts:
+        a = og.strip(a)
+        if isinstance(a, tuple) and a and a[0] == "call" and a[1].endswith("::then_some") and len(a[2]) == 2:
+            cond, v = og.strip(a[2][0]), og.strip(a[2][1])
+            neg = 0
+            while isinstance(cond, tuple) and cond and cond[0] == "un" and cond[1] == "Not":
+                cond, neg = og.strip(cond[2]), neg + 1
+            if isinstance(cond, tuple) and cond and cond[0] == "call" and cond[1].endswith("::is_empty") and og.strip(cond[2][0]) == v:
+                judged += 1
+                if neg % 2 == 1:
+                    rr.ok("%s: Some(list) iff the list is not empty" % label)
+                else:
+                    rr.fail("%s:some-iff-empty" % label, "`%s` answers Some(list) exactly when the list is EMPTY and None when it has entries: the caller, which deletes / refunds / drops only on Some, never sees them" % shortfn(body.id), where=body.span)
+    for bb in body.rpo():
+        for st in body.blocks[bb]["s"]:
+            if st["k"] == "assign" and st["d"] == [0] and st["rv"]["k"] == "agg" and st["rv"].get("variant") == "Some":
+                vals = [f[2] for f in facts_at(ctx, body, bb) if f[0] == "truth" and has_call(f[1], "is_empty")]
+                if vals:
+                    judged += 1
+                    if all(v_ is False for v_ in vals):
+                        rr.ok("%s: Some(list) only under !is_empty" % label)
+                    else:
+                        rr.fail("%s:some-iff-empty" % label, "`%s` answers Some(list) on a path where the list was found EMPTY" % shortfn(body.id), where=body.line_of(bb))
+    return judged
